@@ -70,11 +70,11 @@ func ruleStateF13(c *Ctx) {
 		}
 	}
 	reach := c.P.reachableFrom(roots, func(f *ssa.Function) bool {
-		return !c.P.inUni[f] || constructionBoundary[anchorName(f)]
+		return !c.P.inUni[f] || isConstructionBoundary(f)
 	})
 	var fns []*ssa.Function
 	for f := range reach {
-		if c.P.inUni[f] && f.Blocks != nil && !constructionBoundary[anchorName(f)] {
+		if c.P.inUni[f] && f.Blocks != nil && !isConstructionBoundary(f) {
 			fns = append(fns, f)
 		}
 	}
